@@ -300,7 +300,7 @@ def TraefikOidc_extractGroupsAndRoles (t : Go.Inst) (idToken : Go.Str) : (List G
         (groups, roles, (none : Go.Err))
 
 /-- splitIntoChunks (session.go) -/
-def splitIntoChunks (fuel : Nat) (s : Go.Str) (chunkSize : Int) : Option (List Go.Str) :=
+def splitIntoChunks (fuel : Nat) (s : Go.Str) (chunkSize : Int) : Option ((List Go.Str)) :=
   let chunks := ([] : List Go.Str)
   match Go.forWhile fuel (chunks, s) (fun (chunks, s) => (decide ((s.length : Int) > (0 : Int)))) (fun (chunks, s) =>
     if (decide ((s.length : Int) > chunkSize)) then
@@ -527,5 +527,119 @@ def TraefikOidc_RevokeToken {σ : Type} (ops : Go.VOps σ) (now : Go.Time) (t : 
   else
     let w := (ops.blacklistSet w now token (Go.Any.bool true) (Go.timeSub expiry now))
     w
+
+/-- Cache.removeItem (cache.go) -/
+def Cache_removeItem (c : Go.CacheS) (key : Go.Str) : Go.CacheS :=
+  let c := { c with items := Go.cmapDel c.items key }
+  let (elem, ok) := Go.emapGet c.elems key
+  if ok then
+    let c := { c with order := Go.listRemove c.order elem }
+    let c := { c with elems := Go.emapDel c.elems key }
+    c
+  else
+    c
+
+/-- Cache.evictOldest (cache.go) -/
+def Cache_evictOldest (fuel : Nat) (now : Go.Time) (c : Go.CacheS) : Option (Go.CacheS) :=
+  let now_1 := now
+  let elem := (Go.listFront c.order)
+  match Go.forWhile fuel (c, elem) (fun (c, elem) => elem.isSome) (fun (c, elem) =>
+    let entry := (Go.elemValue elem)
+    let (item, exists_) := Go.cmapGet c.items (Go.lruKey entry)
+    if exists_ then
+      if (!(Go.timeBefore now_1 item.ExpiresAt)) then
+        let c := (Cache_removeItem c (Go.lruKey entry))
+        .ret (c)
+      else
+        let elem := (Go.listNext c.order elem)
+        .next (c, elem)
+    else
+      let elem := (Go.listNext c.order elem)
+      .next (c, elem)) with
+  | none => none
+  | some (.ret r) => some r
+  | some (.next (c, elem)) =>
+    let elem := (Go.listFront c.order)
+    if elem.isSome then
+      let entry := (Go.elemValue elem)
+      let c := (Cache_removeItem c (Go.lruKey entry))
+      some (c)
+    else
+      some (c)
+  | some (.brk (c, elem)) =>
+    let elem := (Go.listFront c.order)
+    if elem.isSome then
+      let entry := (Go.elemValue elem)
+      let c := (Cache_removeItem c (Go.lruKey entry))
+      some (c)
+    else
+      some (c)
+
+/-- Cache.Set (cache.go) -/
+def Cache_Set (fuel : Nat) (now : Go.Time) (c : Go.CacheS) (key : Go.Str) (value : Go.Any) (expiration : Go.Duration) : Option (Go.CacheS) :=
+  let now_1 := now
+  let expTime := (Go.timeAdd now_1 expiration)
+  let (_u2, exists_) := Go.cmapGet c.items key
+  if exists_ then
+    let c := { c with items := Go.cmapSet c.items key ({ Value := value, ExpiresAt := expTime } : Go.CacheItem) }
+    let (elem, ok) := Go.emapGet c.elems key
+    if ok then
+      let c := { c with order := Go.listMoveToBack c.order elem }
+      some (c)
+    else
+      some (c)
+  else
+    if (decide ((c.items.length : Int) ≥ c.maxSize)) then
+      match (Cache_evictOldest fuel now c) with
+      | none => none
+      | some c =>
+        let c := { c with items := Go.cmapSet c.items key ({ Value := value, ExpiresAt := expTime } : Go.CacheItem) }
+        let (elem, l_3) := Go.listPushBack c.order (Go.lruEntry key)
+        let c := { c with order := l_3 }
+        let c := { c with elems := Go.emapSet c.elems key elem }
+        some (c)
+    else
+      let c := { c with items := Go.cmapSet c.items key ({ Value := value, ExpiresAt := expTime } : Go.CacheItem) }
+      let (elem, l_4) := Go.listPushBack c.order (Go.lruEntry key)
+      let c := { c with order := l_4 }
+      let c := { c with elems := Go.emapSet c.elems key elem }
+      some (c)
+
+/-- Cache.Get (cache.go) -/
+def Cache_Get (now : Go.Time) (c : Go.CacheS) (key : Go.Str) : (Go.Any × Bool) × Go.CacheS :=
+  let (item, exists_) := Go.cmapGet c.items key
+  if (!exists_) then
+    ((Go.Any.nil, false), c)
+  else
+    if (!(Go.timeBefore now item.ExpiresAt)) then
+      let c := (Cache_removeItem c key)
+      ((Go.Any.nil, false), c)
+    else
+      let (elem, ok) := Go.emapGet c.elems key
+      if ok then
+        let c := { c with order := Go.listMoveToBack c.order elem }
+        ((item.Value, true), c)
+      else
+        ((item.Value, true), c)
+
+/-- Cache.Delete (cache.go) -/
+def Cache_Delete (c : Go.CacheS) (key : Go.Str) : Go.CacheS :=
+  let c := (Cache_removeItem c key)
+  c
+
+/-- Cache.Cleanup (cache.go) -/
+def Cache_Cleanup (now : Go.Time) (c : Go.CacheS) : Go.CacheS :=
+  let now_1 := now
+  match Go.forRange c.items c (fun (key, item) c =>
+    if ((!(Go.timeBefore now_1 item.ExpiresAt)) || (Go.timeAfter (Go.timeAdd now_1 (Go.durScale (Go.timeSub item.ExpiresAt now_1) (1 : Int) (10 : Int))) item.ExpiresAt)) then
+      let c := (Cache_removeItem c key)
+      .next c
+    else
+      .next c) with
+  | .ret r => r
+  | .next c =>
+    c
+  | .brk c =>
+    c
 
 end Oidc.Generated.Code
